@@ -170,22 +170,23 @@ Theorem C16_sos_lossless_psv_pt : forall keep ids s rest, NoDup ids -> Forall is
 Proof. exact sos_lossless_psv_pt. Qed.
 Print Assumptions C16_sos_lossless_psv_pt.
 
-(* the DC table selector of a lossless scan: refuted on a tree whose emit_sos zeroes Td when Ss <> 0,
-   proved on a tree that keeps it (the generated fact decides which of the two is not vacuous) *)
-Theorem C16_sos_lossless_td_refuted : EMIT_SOS_TD_KEPT_IN_LOSSLESS = 0 ->
-  exists ids s, NoDup ids /\ Forall is_byte ids /\ scan_ok ids s /\ lossless_scan s /\
-    exists s', get_sos ids (skipn 2 (emit_sos true ids s)) = Some (s', []) /\
-               map sc_dc (s_comps s') <> map sc_dc (s_comps s).
-Proof. exact sos_lossless_td_refuted. Qed.
-Print Assumptions C16_sos_lossless_td_refuted.
-
-Theorem C16_sos_lossless_td_kept : EMIT_SOS_TD_KEPT_IN_LOSSLESS = 1 ->
+(* the DC table selector of a lossless scan comes back (the tree keeps Td in lossless scans: generated fact
+   EMIT_SOS_TD_KEPT_IN_LOSSLESS = 1; this obligation fails to type-check if emit_sos zeroes Td again) *)
+Theorem C16_sos_lossless_td_kept :
   forall ids s rest, NoDup ids -> Forall is_byte ids -> scan_ok ids s ->
   exists body, emit_sos true ids s = emit_marker M_SOS ++ body /\
     get_sos ids (body ++ rest) =
     Some (mkScan (map (fun c => mkScomp (sc_ci c) (sc_dc c) (sos_ta s c)) (s_comps s)) (s_Ss s) (s_Se s) (s_Ah s) (s_Al s), rest).
-Proof. exact sos_lossless_td_kept. Qed.
+Proof. exact (sos_lossless_td_kept eq_refl). Qed.
 Print Assumptions C16_sos_lossless_td_kept.
+
+(* the former defect, kept as the statement of what a tree with EMIT_SOS_TD_KEPT_IN_LOSSLESS = 0 does *)
+Theorem C16_sos_lossless_td_refuted_if_zeroed : EMIT_SOS_TD_KEPT_IN_LOSSLESS = 0 ->
+  exists ids s, NoDup ids /\ Forall is_byte ids /\ scan_ok ids s /\ lossless_scan s /\
+    exists s', get_sos ids (skipn 2 (emit_sos true ids s)) = Some (s', []) /\
+               map sc_dc (s_comps s') <> map sc_dc (s_comps s).
+Proof. exact sos_lossless_td_refuted. Qed.
+Print Assumptions C16_sos_lossless_td_refuted_if_zeroed.
 
 Theorem C16_dri_roundtrip : forall n rest, 0 <= n < 65536 ->
   exists body, emit_dri n = emit_marker M_DRI ++ body /\ get_dri (body ++ rest) = Some (n, rest).
@@ -248,23 +249,39 @@ Theorem C16_copy_end_to_end : forall opt wj wa segs rest, 0 <= opt < 5 ->
 Proof. exact copy_end_to_end. Qed.
 Print Assumptions C16_copy_end_to_end.
 
-(* tj3Transform + tj3SetICCProfile: refuted when the instance profile is written whatever the option *)
-Theorem C16_tj_transform_double_icc_refuted : TJ_TRANSFORM_ICC_UNCONDITIONAL = 1 ->
+(* tj3Transform + tj3SetICCProfile: never two profiles (generated fact TJ_TRANSFORM_ICC_UNCONDITIONAL = 0; this
+   obligation fails to type-check if the instance profile is written unconditionally again) *)
+Theorem C16_tj_transform_single_icc :
+  forall sm copynone wj wa src q, let opt := tj_execute_option sm copynone in 0 <= opt < 5 ->
+  (tj_icc_copied opt src = true -> tj_transform_extras sm copynone wj wa src q = copy_execute opt wj wa src) /\
+  (tj_icc_copied opt src = false -> forall segs, q <> [] -> write_icc q = Some segs ->
+     filter marker_is_icc (markers_of (tj_transform_extras sm copynone wj wa src q)) = filter marker_is_icc (markers_of segs)).
+Proof. exact (tj_transform_single_icc eq_refl). Qed.
+Print Assumptions C16_tj_transform_single_icc.
+
+(* the former defect, kept as the statement of what a tree with TJ_TRANSFORM_ICC_UNCONDITIONAL = 1 does *)
+Theorem C16_tj_transform_double_icc_if_unconditional : TJ_TRANSFORM_ICC_UNCONDITIONAL = 1 ->
   exists p q segs, write_icc p = Some segs /\
     read_icc (markers_of segs) = IccOk p /\
     read_icc (markers_of (tj_transform_extras JCOPYOPT_ALL false true false (markers_of segs) q)) = IccBogus.
 Proof. exact tj_transform_double_icc_refuted. Qed.
-Print Assumptions C16_tj_transform_double_icc_refuted.
-
-Theorem C16_tj_transform_instance_icc : forall opt wj wa src q segs, copies_app2 opt = false ->
-  Forall (fun m => marker_is_icc m = false) src -> q <> [] -> write_icc q = Some segs ->
-  filter marker_is_icc (markers_of (tj_transform_extras opt false wj wa src q)) = filter marker_is_icc (markers_of segs).
-Proof. exact tj_transform_instance_icc. Qed.
-Print Assumptions C16_tj_transform_instance_icc.
+Print Assumptions C16_tj_transform_double_icc_if_unconditional.
 
 (* ---- non-vacuity: the hypotheses above are satisfiable by concrete non-trivial values *)
 Example C16_ex_icc_two_segments : ex_two_check = true.
 Proof. exact ex_two_check_true. Qed.
+(* regression cases of the two fixed defects, on the model *)
+Example C16_ex_sos_lossless_regression :
+  get_sos [1; 2; 3] (skipn 2 (emit_sos true [1; 2; 3] (mkScan [mkScomp 0 0 0; mkScomp 1 1 1; mkScomp 2 1 1] 1 0 0 0)))
+  = Some (mkScan [mkScomp 0 0 0; mkScomp 1 1 0; mkScomp 2 1 0] 1 0 0 0, []).
+Proof. exact ex_sos_lossless_regression. Qed.
+Example C16_ex_tj_transform_regression :
+  match write_icc [1] with
+  | Some segs => match read_icc (markers_of (tj_transform_extras JCOPYOPT_ALL false true false (markers_of segs) [2])) with
+                 | IccOk p => zlist_eqb p [1] | _ => false end
+  | None => false
+  end = true.
+Proof. exact tj_transform_regression_check. Qed.
 Example C16_ex_icc_bad :
   let a := mkSaved M_APP2 17 (icc_sig_writer ++ [1; 2; 9; 9; 9]) in
   let b := mkSaved M_APP2 15 (icc_sig_writer ++ [1; 2; 7]) in
